@@ -101,7 +101,8 @@ class TxSpec(Spec):
     def assumptions(self):
         return ["enable = 1 throughout; the PENDING_HP timer is scaled to one bit and recovery_required is not judged (a real link "
                 "would leave U0 when it fires)",
-                "the partner never holds more than buffer_count unused credits, acknowledges (LGOOD) only headers it has completely "
+                "the partner has buffer_count header buffers: unused credits + transmitted-but-unacknowledged headers never exceed "
+                "buffer_count (a buffer's credit is returned only after the LGOOD of the header that filled it); it acknowledges (LGOOD) only headers it has completely "
                 "received since its last LBAD, sends LBAD only while a completely transmitted header is unacknowledged and not "
                 "again before the retransmission it asked for is complete; link commands are word aligned, two cycles each",
                 "mismatching LGOOD_n / LCRD_x (at most cfg.mism per history) are explored as no-ops of the reference: nothing is "
@@ -127,7 +128,7 @@ class TxSpec(Spec):
                 if r.mism < self.cfg["mism"]: acts.append(("lc", "LGOOD", 1))
             if r.unacked and not r.retx and not r.grace:
                 acts.append(("lc", "LBAD", 0))
-        if r.credits < self.n:
+        if r.credits + len(r.unacked) < self.n:      # the partner has buffer_count buffers; unacknowledged headers hold one each
             acts.append(("lc", "LCRD", 0))
             if r.mism < self.cfg["mism"]: acts.append(("lc", "LCRD", 1))
         if self.cfg["mism"]: acts.append(("lc", "LRTY", 0))
